@@ -25,6 +25,10 @@ CHECKS = {
          "SHA-1 on every length 0..1100 x 3 contents and 2^k-1/2^k/2^k+1 up to 64 KiB (1 MiB); Base64 on all 2^24+2^16+2^8 inputs of <=3 bytes (encode = reference, decode(encode(x)) = x), decode of every 4-symbol group over the alphabet plus '=' plus an illegal symbol (66^4), odd lengths and misplaced padding; percent-encoding of every byte and byte pair with round trip, decode of every string of <=5 (6) symbols over {%,0,9,a,F,g,+,SP,e-acute}; HTTP dates for every day from 1970-01-01 to 9999-12-31 at 00:00:00 and 23:59:59 and every second of 7 boundary days. Any disagreement with the reference is a counter-example.",
          "Trusted: the reference SHA-1/Base64/percent/civil-date code in checks/src/props/c18.rs, itself compared with CPython's hashlib/base64/urllib.parse/email.utils on ~700 cases at the start of every run (disagreement = machinery error). Non-canonical Base64 pad bits may be accepted or rejected.",
          "DESIGN.md §3 C18"),
+ "C11": ("E2-enum", "bounded-exhaustive enumeration of client frame scripts x delivery plans x handler endings against a reference RFC 6455 endpoint",
+         "Every RFC-valid client script of <=4 (5) frames over {text/binary/continuation with and without FIN, ping with 3 payloads, pong, close with and without status} x data payload classes {0,1,126 (,70 KiB)} is delivered to the real websocket_handler/WebsocketStream over a scripted socket under every delivery plan (one segment, byte-by-byte, every cut in the first 14 bytes, at and just after every frame boundary, one segment per frame) and every ending (client Close, client vanishes, server drops the stream after k messages). The non-blocking receive is run with every placement of <=1 (2) `not yet` answers and every split of one frame after its 1st/2nd/3rd/5th byte. Compared with a reference endpoint: messages = fragments concatenated with the first fragment's type; every byte written after the 101 parses as unmasked well-formed frames; one Pong per Ping with equal payload in order; Close answered by Close and reported as closed; exactly one Close on drop unless already closed; `nothing yet` only when the read that gave up found no data. Handshake: 101 with the exact Sec-WebSocket-Accept for 6 key shapes, no upgrade without a key.",
+         "Trusted: reference endpoint and strict frame parser in checks/src/props/c11.rs, scripted socket in the facade (a read returns at most the current segment). A vanished client is not detected by non-blocking receive (documented limitation), so no read error is expected there.",
+         "DESIGN.md §3 C11"),
 }
 NOT_YET = {}
 
